@@ -13,6 +13,7 @@ import re
 import os.path
 import queue
 import gc
+import heapq
 
 from contextlib import contextmanager
 from hashlib import sha256
@@ -116,7 +117,7 @@ class Index:
         newest first for each match, with since <= created_at <= until.
         Keys look like <match>\x00<4 bytes created_at>\x00<32 bytes id>
         """
-        cursor = txn.cursor()
+        cursors = []
         compiled_matches = []
         for match in matches:
             try:
@@ -129,10 +130,12 @@ class Index:
         else:
             high = b"\xff\xff\xff\xff"
 
-        prev = cursor.prev
-        get_key = cursor.key
-
-        def scan(prefix, seen):
+        def scan(prefix):
+            # yields (created_at bytes, id), newest first
+            cursor = txn.cursor()
+            cursors.append(cursor)
+            prev = cursor.prev
+            get_key = cursor.key
             # start after the newest possible key for this match
             # (set_range finds the first key >= the argument)
             if cursor.set_range(prefix + high + b"\xff" * 34):
@@ -149,38 +152,47 @@ class Index:
                     ts = key[-37:-33]
                     if ts < low:
                         break
-                    event_id = key[-32:]
-                    if ts <= high and event_id not in seen and event_id in events:
-                        seen.add(event_id)
-                        yield event_id
+                    if ts <= high:
+                        yield ts, key[-32:]
                 found = prev()
 
         def iterator():
             seen = set()
             if compiled_matches:
-                for match in compiled_matches:
-                    yield from scan(match + b"\x00", seen)
+                scans = [scan(match + b"\x00") for match in compiled_matches]
+                if len(scans) == 1:
+                    merged = scans[0]
+                else:
+                    # newest first over all the values
+                    merged = heapq.merge(*scans, key=lambda item: item[0], reverse=True)
+                for ts, event_id in merged:
+                    if event_id not in seen and event_id in events:
+                        seen.add(event_id)
+                        yield event_id
             elif matches:
                 return
             else:
                 # date range scan over the whole index
+                cursor = txn.cursor()
+                cursors.append(cursor)
                 if cursor.set_range(self.prefix + high + b"\xff" * 39):
-                    found = prev()
+                    found = cursor.prev()
                 else:
                     found = cursor.last()
                 while found:
-                    key = bytes(get_key())
+                    key = bytes(cursor.key())
                     if key[0:1] != self.prefix or key[1:5] < low:
                         break
                     event_id = key[-32:]
                     if event_id in events:
                         yield event_id
-                    found = prev()
+                    found = cursor.prev()
 
         try:
             yield iterator()
         finally:
-            cursor.close()
+            for cursor in cursors:
+                cursor.close()
 
 
 class IdIndex(Index):
@@ -201,21 +213,20 @@ class IdIndex(Index):
         # the key is just the id: there is nothing to walk,
         # and since/until are checked against the record by matcher()
         def iterator():
-            seen = set()
+            found = set()
             for match in matches:
                 try:
                     key = self.to_key(match)
                 except ValueError:
                     continue
                 event_id = key[1:]
-                if (
-                    len(event_id) == 32
-                    and event_id not in seen
-                    and event_id in events
-                    and txn.get(key) is not None
-                ):
-                    seen.add(event_id)
-                    yield event_id
+                if len(event_id) == 32 and event_id in events:
+                    data = get_event_data(txn, event_id)
+                    if data:
+                        found.add((data[2], event_id))
+            # newest first, like the other indexes
+            for created_at, event_id in sorted(found, reverse=True):
+                yield event_id
 
         yield iterator()
 
@@ -456,16 +467,20 @@ class MultiIndex:
     @contextmanager
     def scanner(self, txn, matches: list, since=None, until=None, events=None):
         def iterator(events):
-            for (index, _), imatches in zip(self.indexes, matches):
+            last = len(self.indexes) - 1
+            for i, ((index, _), imatches) in enumerate(zip(self.indexes, matches)):
                 with index.scanner(
                     txn, imatches, since=since, until=until, events=events
                 ) as scanner:
+                    if i == last:
+                        # keep the (newest first) order of the last index
+                        yield from scanner
+                        return
                     events = set(scanner)
                     # if there are no events further up the chain,
                     # any index after this will not match anything
                     if not events:
                         break
-            yield from events
 
         yield iterator(events or FakeContainer())
 
